@@ -3,14 +3,14 @@ from props import termgen as tg
 
 ID = 'C09'
 GENERATORS = ['gen_font']     # Model/AnsiTok.v loads `CTerm:Font:` strings with C17's Model/Font.v, which needs Gen/FontConsts.v
-COQ_TARGETS = ['Props/C09.vo', 'Run/RunC09.vo']
+COQ_TARGETS = ['Props/C09.vo', 'Run/RunC09.vo', 'Run/RunC01.vo']
 PROPS_MODULE = 'Props.C09'
-THEOREMS = ['c09_stream', 'origin_never_margins', 'fixed_grid_size', 'ansi_char_keeps_cursor']
+THEOREMS = ['c09_stream', 'origin_never_margins', 'fixed_grid_size', 'ansi_char_keeps_cursor', 'c09_petscii']
 SWEEP_LEMMAS = []
 TRUSTED = ['Coq 8.16.1 kernel + vm_compute (model evaluation in stage C); no axioms (Print Assumptions: closed)',
            'hand-written models Model/TermCore.v, AnsiTok.v, Emu.v: tied to the Rust source by differential runs after EVERY character (stage C), not by translation',
            'harness/src/c09.rs (observer: caret, buffer/layer/terminal sizes, row lengths, margins, tabs, modes, outcome class)']
-UNMODELLED = ['PETSCII (no Coq model): covered by stages S only, as a scrolling terminal',
+UNMODELLED = ['PETSCII: font page / foreground colour of a cell (Model/Petscii.v, added with the C01 extension, models everything that can move the cursor or change a size)',
               'colours beyond "is palette index 0", rendition flags, font tables, SendString/PlayMusic payloads, hyperlink texts (cannot influence geometry)',
               'cell contents of Viewdata / Mode 7 (graphics, hold, fill_to_eol): their row lengths are not compared, everything else is',
               'non-terminal buffers (file loaders) and multi-layer buffers',
@@ -23,7 +23,7 @@ RULE = ('token streams over the alphabet of DESIGN A.4 (~75 control functions x 
         'character. Stage S: the invariant itself after every character: every 2-token sequence (quick) / 3-token sequence over a thinned alphabet (thorough) after three '
         'set-ups (fresh screen, scrollback present, scrollback + margins), every emulation, random streams up to 4 KiB that fill the scrollback, sizes 1..=132 x 1..=60; '
         'Viewdata/Mode 7 40x24 size constancy. non-trivial = the stream moved the cursor, grew a scrollback or produced an error value')
-MODEL_IMPORTS = 'From IE Require Import Run.RunC09.\nLocal Open Scope Z_scope.'
+MODEL_IMPORTS = 'From IE Require Import Run.RunC09 Run.RunC01.\nLocal Open Scope Z_scope.'
 
 SIZES = [(80, 25), (80, 25), (40, 24), (132, 60), (5, 3), (1, 1), (2, 2), (10, 4), (7, 60), (132, 1), (1, 60), (33, 17)]
 
@@ -63,8 +63,12 @@ def correspondence(ctx):
                    (1, b'\x16\x04' * 40), (3, LF40 + b"\x01'"), (0, LF40 + E + b'[!p'), (0, LF40 + E + b'c'), (0, E + b'[0;0r' + E + b'[M' + E + b'[L'),
                    (0, b'\x0c' + E + b'[ @' + E + b'[ A'), (0, b'\n' * 80 + E + b'[2147483647e'), (0, E + b'[1;2147483647r' + E + b'[M')]:
         meta.append((emu, 0, 80, 25, b, ['ledger']))
+    # PETSCII (Model/Petscii.v): byte streams, observation after every character
+    for _ in range(ctx.n(40, 400)):
+        w, h = ctx.rng.choice(SIZES)
+        meta.append((6, 0, w, h, tg.petscii_stream(ctx.rng, w, h, ctx.rng.choice([5, 20, 60, 150])), ['petscii']))
     cases = ['term %d %d %d %d %s' % (e, mu, w, h, tg.hx(b)) for e, mu, w, h, b, _ in meta]
-    exprs = ['run_term %d %d %d %d %s' % (e, mu, w, h, zl(b)) for e, mu, w, h, b, _ in meta]
+    exprs = [('run_term_pet %d %d %s' % (w, h, zl(b))) if e == 6 else ('run_term %d %d %d %d %s' % (e, mu, w, h, zl(b))) for e, mu, w, h, b, _ in meta]
     impl = ctx.impl(cases, per_case_timeout=30)
     model = ctx.model(MODEL_IMPORTS, exprs, timeout=900)
     dis = []; nontriv = set(); dist = {}
@@ -236,7 +240,7 @@ LEVEL_TEXT = ('Machine-checked proof (Coq, closed under the global context) over
               'emulation but the fixed grids, every music option, every size 1..=132 x 1..=60, every stream that executes no text-area resize: 0 <= x < width and first visible '
               'row <= y < first + height after every character), origin_never_margins (origin mode is never WithinMargins, margins stay inside the screen), fixed_grid_size '
               '(Viewdata/Mode 7: terminal, buffer and layer keep exactly w x h, at most h rows allocated, for every stream). The theorems hold for the code WITH eight fix: '
-              'commits (CVT, FF, RCP, DECRC, DECSTR, Avatar goto, Avatar relative moves, Ctrl-A home) which repair the defects of the ledger. PETSCII has no model (search only).')
+              'commits (CVT, FF, RCP, DECRC, DECSTR, Avatar goto, Avatar relative moves, Ctrl-A home) which repair the defects of the ledger. c09_petscii (added with the C01 extension): PETSCII (Model/Petscii.v) keeps the same cursor invariant for every stream; it has no resize, so no side condition.')
 LEVEL_NOTE = ('Trusted: Coq kernel + vm_compute; the hand models are tied to the Rust code by differential execution with an observation after every character (caret, sizes, '
               'row lengths, margins, tabs, modes, outcome class); row counters are unbounded in the model (an i32 row overflow needs 2^31 allocated rows).')
 TECHNIQUE = ('Coq proof: inductive invariant (geometry + margins inside the screen + cursor inside the visible rows) preserved by every operation, every parser state and every '
